@@ -244,7 +244,10 @@ def step (avg : Nat → R → R → R) (s : MState P R) : MOp P R → Except Str
   | .change k x r v en a => s.changePoint k x r v en a
   | .swap k1 k2 => s.swap k1 k2
   | .sample k r v => s.addSample avg k r v
-  | .addPoint x r v en => .ok (s.addPoint x r v en)
+  | .addPoint x r v en =>
+    -- `np.append` writes row `num_pts`, which is row `npt()` only when the set is full; the solver
+    -- calls it from `soft_restart` only; the not-full case is outside the model (precondition)
+    if s.slots.length = s.cap then .ok (s.addPoint x r v en) else .error "unmodelled: add_new_point while growing"
   | .shift => .ok s.shiftBase
   | .save x r v ns en => .ok (s.savePoint x r v ns en).1
   | .interpolate => .ok s.interpolate
